@@ -222,6 +222,23 @@ ADD5 = {
  "C01": " Round 5: SIB-REOPEN-STATE, CE-RING-ACCOUNT, TM-ENCAVAIL, CE-CHUNKHDR. TM-OPMARGIN (opLenMargin covers the largest operation plus closing the range coder; found and fixed a defect, DESIGN 12.6); WR-RAWCOPY (raw chunk only while the encoder dictionary holds it; defect fixed, DESIGN 12.7).",
  "C08": " TM-OPMARGIN (opLenMargin covers the largest operation plus closing the range coder; found and fixed a defect, DESIGN 12.6); WR-RAWCOPY (raw chunk only while the encoder dictionary holds it; defect fixed, DESIGN 12.7).",
 }
+ADD6 = {
+ "C02": " Round 6: OB-RAWCHOICE.",
+ "C03": " Round 6: SEQ-APPLY, WMW-RING.",
+ "C04": " Round 6: CE-ALLZEROS, SEQ-APPLY; EF-IO replaced-error repair.",
+ "C05": " Round 6: SEQ-READER-INIT.",
+ "C07": " Round 6: WR-LITINIT.",
+ "C08": " Round 6: TM-ENCAVAIL.",
+ "C09": " Round 6: EF-IO replaced-error repair (the unrelated-condition excuse ends once the error was tested).",
+ "C10": " Round 6: SEQ-APPLY and decoder window guards (lib).",
+ "C11": " Round 6: OB-ARRSLICE (interval analysis), WMW-RING, SEQ-APPLY.",
+ "C12": " Round 6: WR-WRITETO, CE-ALLZEROS, GL-GLOBAL/GL-NONDET over the reader.",
+ "C13": " Round 6: WR-WRITETO.",
+ "C15": " Round 6: TM-XZW check encoding (lib).",
+ "C17": " Round 6: WR-DICT-ENC, WR-DICT-BLOCK.",
+}
+for pid, text in ADD6.items():
+    ADD5[pid] = ADD5.get(pid, "") + text
 for pid, text in ADD5.items():
     ADD4[pid] = ADD4.get(pid, "") + text
 for pid, text in ADD4.items():
